@@ -4,6 +4,7 @@ package config
 
 import (
 	"fmt"
+	"math"
 	"strings"
 
 	"pgregory.net/rapid"
@@ -23,20 +24,22 @@ type node struct {
 	kids  []*node
 }
 
-func st(tokens ...string) *node          { return &node{head: tokens} }
+func st(tokens ...string) *node              { return &node{head: tokens} }
 func blk(kids []*node, head ...string) *node { return &node{head: head, block: true, kids: kids} }
 
 type cg struct {
-	t       *rapid.T
-	invalid bool // this case is biased to parse-valid but compile-invalid programs
-	env     map[string]string
-	files   map[string]string
-	vars    [][2]string // registered {vars.N} definitions (name, spelled value)
-	nID     int
-	port    int
-	secrets []string // secret ids defined
-	backend string
-	useVars bool
+	t        *rapid.T
+	invalid  bool // this case is biased to parse-valid but compile-invalid programs
+	env      map[string]string
+	files    map[string]string
+	vars     [][2]string // registered {vars.N} definitions (name, spelled value)
+	nID      int
+	port     int
+	secrets  []string // secret ids defined
+	backend  string
+	useVars  bool
+	usedRefs map[string]bool
+	dens     int // percent scale of optional parts (program density)
 }
 
 // isBarePlaceholder: v is exactly one token of the lexer's placeholder form.
@@ -53,11 +56,60 @@ func (g *cg) pct(p int, label string) bool {
 	if p <= 0 {
 		return false
 	}
-	return rapid.IntRange(0, 99).Draw(g.t, label) >= 100-p
+	if g.dens > 0 && g.dens < 100 { // sparse programs: optional parts are rarer
+		p = (p*g.dens + 99) / 100
+	}
+	if p > 100 {
+		p = 100
+	}
+	return rapid.IntRange(0, 99).Draw(g.t, label) >= pctThresh[p]
 }
 
+// rapid draws integers with a bias to short bit lengths (small values), so `x >= 100-p` would
+// be true far less often than p %. pctThresh[p] is the threshold t for which P(x >= t) is
+// closest to p/100 under rapid v1.3.0's distribution for IntRange(0, 99): bit length
+// n ~ 1+Geom(1/9); n <= 6: uniform on [0, 2^n); 7 <= n < 32: uniform on [0, 99]; n >= 32: 99.
+var pctThresh = func() [101]int {
+	pmf := make([]float64, 100)
+	pn := func(k int) float64 { return math.Pow(8.0/9, float64(k-1)) / 9 }
+	for n := 1; n <= 6; n++ {
+		for u := 0; u < 1<<n; u++ {
+			pmf[u] += pn(n) / float64(int(1)<<n)
+		}
+	}
+	tail, top := math.Pow(8.0/9, 6), math.Pow(8.0/9, 31)
+	for u := 0; u < 100; u++ {
+		pmf[u] += (tail - top) / 100
+	}
+	pmf[99] += top
+	sf := make([]float64, 101) // sf[t] = P(x >= t)
+	for t := 99; t >= 0; t-- {
+		sf[t] = sf[t+1] + pmf[t]
+	}
+	var out [101]int
+	for p := 1; p <= 100; p++ {
+		best := 1
+		for t := 1; t <= 99; t++ {
+			if math.Abs(sf[t]-float64(p)/100) < math.Abs(sf[best]-float64(p)/100) {
+				best = t
+			}
+		}
+		out[p] = best
+	}
+	out[100] = 0
+	return out
+}()
+
 // bad is pct, but only in compile-invalid mode: used to break a semantic constraint.
-func (g *cg) bad(p int, label string) bool { return g.invalid && g.pct(p, label) }
+func (g *cg) bad(p int, label string) bool {
+	if !g.invalid {
+		return false
+	}
+	d := g.dens
+	g.dens = 100
+	defer func() { g.dens = d }()
+	return g.pct(p, label)
+}
 
 func (g *cg) pick(label string, xs ...string) string { return rapid.SampledFrom(xs).Draw(g.t, label) }
 func (g *cg) n(label string, lo, hi int) int         { return rapid.IntRange(lo, hi).Draw(g.t, label) }
@@ -146,7 +198,7 @@ func (g *cg) sem(kind int) string {
 	case kEgress:
 		return g.pick("egress", "*.internal.example.com", "169.254.0.0/16", "10.0.0.1", "api.example.com", "fd00::/8", "deny", "Example.COM.")
 	case kSecretRef:
-		return g.pick("sref", "env:HOOKAIDO_SECRET", "raw:s3cr3t", "file:/run/secrets/x", "vault:secret/data/hook#key", "raw: spaced value ", "raw:a\"b\\c", "env: PADDED", "raw:{x}") + g.pick("srefsfx", "", "", "1", "2")
+		return g.pick("sref", "env:HOOKAIDO_SECRET", "raw:s3cr3t", "file:/run/secrets/x", "vault:secret/data/hook#key", "raw: spaced value ", "raw:a\"b\\c", "env: PADDED", "raw:{x}") + fmt.Sprint(g.id())
 	case kTimestamp:
 		return g.pick("ts", "2026-01-01T00:00:00Z", "2025-06-01T12:30:00+02:00", "2026-01-01T00:00:00.123456789Z", "2024-02-29T23:59:59-08:00")
 	case kLabel:
@@ -340,12 +392,12 @@ func (g *cg) vs(kind int, stop map[string]bool) string {
 var cfgComments = []string{"# note", "#", "# a { b } \"c\" # d", "# ünïcode ✓", "#listen :1", "# {$X} {env.Y}", "#\t tab ", "## }", "# \"unterminated"}
 
 type layout struct {
-	g      *cg
-	b      strings.Builder
-	unit   string
-	messy  bool // extra spaces, blank lines, split lines, odd brace placement
-	cmts   bool
-	oneln  int // percent of blocks rendered on one line
+	g     *cg
+	b     strings.Builder
+	unit  string
+	messy bool // extra spaces, blank lines, split lines, odd brace placement
+	cmts  bool
+	oneln int // percent of blocks rendered on one line
 }
 
 func (l *layout) sep() string {
